@@ -32,6 +32,7 @@ def configs(tier):
          cfg(["a", "a.xml.b"], ["xml", "alto"]),            # ... processed second; kill between PAGE XML and ALTO
          cfg(["a", "a.b"], ["alto", "lines"]),              # id with a dot; kill between ALTO and the crops
          cfg(["a", "b"], ["render", "lines"], nlines=1),
+         cfg(["a", "b"], ["render", "logits"]),             # the one pair written in the opposite order to the one consulted
          cfg(["a", "b"], ["lines"])]                        # no single-file output: the open known finding
     if tier == "quick":
         return q
